@@ -19,7 +19,7 @@ from gverif.common import PY, child_env, die
 
 IMPORT_ORDER = ["K", "f", "x"]
 MALL_ORDER = ["B", "K", "f", "x", "n"]
-RALL_ORDER = ["K", "f", "x", "ext", "cyc"]
+RALL_ORDER = ["K", "f", "x", "ext", "cyc", "mal"]
 
 
 def modname(mpriv: bool) -> str:
@@ -91,6 +91,8 @@ def render(v: dict, mpriv: bool) -> dict:
         init.append("from extlib import ext")
     if v["cyc"]:
         init.append(f"from pkg.{mod} import cyc")
+    if v.get("mal"):
+        init.append(f"import pkg.{mod} as mal")
     if v["hasRall"]:
         init.append("__all__ = [" + ", ".join(f'"{n}"' for n in RALL_ORDER if n in v["rall"]) + "]")
     text = "\n".join(init) + "\n" if init else ""
@@ -137,7 +139,7 @@ def check_compiles(files: dict):
 def expected_members(v: dict) -> dict:
     """Names of the members the loader must find (sanity of the renderer against the model's tree)."""
     present = lambda d: v["kind"][d] != "absent"  # noqa: E731
-    imports = [n for n in IMPORT_ORDER if n in v["imp"]] + (["ext"] if v["ext"] else []) + (["cyc"] if v["cyc"] else []) + (["__all__"] if v["hasRall"] else [])
+    imports = [n for n in IMPORT_ORDER if n in v["imp"]] + (["ext"] if v["ext"] else []) + (["cyc"] if v["cyc"] else []) + (["mal"] if v.get("mal") else []) + (["__all__"] if v["hasRall"] else [])
     sib = site_of(v) == "sib"
     out = {"": ([] if sib else imports) + (["M"] if present("M") else []) + ([SIB] if sib else [])}
     if sib:
@@ -199,7 +201,7 @@ def real_report(griffe, old_pkg, new_pkg, mpriv: bool, styles) -> tuple:
 def describe(case: dict) -> str:
     v = case["old"]
     return (f"pkg/{modname(case['mpriv'])}.py, re-exports in {'pkg/zapi.py' if site_of(v) == 'sib' else 'pkg/__init__.py'}, __all__ site={sorted(v['rall']) if v['hasRall'] else None} mod={sorted(v['mall']) if v['hasMall'] else None}, "
-            f"re-exports {sorted(v['imp'])}{' +dangling' if v['ext'] else ''}{' +cyclic' if v['cyc'] else ''}, K({'B' if v['kbase'] else ''}); edits: "
+            f"re-exports {sorted(v['imp'])}{' +dangling' if v['ext'] else ''}{' +cyclic' if v['cyc'] else ''}{' +import-as' if v.get('mal') else ''}, K({'B' if v['kbase'] else ''}); edits: "
             + (", ".join(f"{e['op']}({e['id']})" for e in case["log"]) or "none"))
 
 
